@@ -4,7 +4,7 @@ import common, schema, histgen, refcbor, cborgen
 from concurrent.futures import ThreadPoolExecutor
 THEOREMS = ["C03_window", "C03_alloc_bounded", "C03_alloc_bounded_skip", "C03_alloc_bounded_strings", "C03_time_arith", "C03_index_checked",
             "C03_params_index_checked", "C03_dname", "C03_fuel_partial", "C03_repeated_keys_as_the_code", "C03_nonvacuous"]
-EXTRA_PROPERTY_FILES = ("Properties_format",)   # obligations over the regenerated Gen_format.v (translator/format.py)
+EXTRA_PROPERTY_FILES = ("Properties_format", "Properties_cursor")   # obligations over the regenerated Gen_*.v (translator/*.py)
 TOOLS = True
 OPS = ["D pk", "D u", "D n", "D i", "D b", "D bs", "D ts", "D as", "D ms", "D br", "D sk"]
 
@@ -142,6 +142,27 @@ def run(ctx):
         try: r2 = refcbor.encode(refcbor.drop_member(refcbor.parse_all(schema.enc(t, v)), rng))
         except Exception: continue
         exact.append({"id": "j%d" % i, "script": ["S r %s %s" % (nm, r2.hex())], "expect": None, "meta": {"kind": "struct-member-missing"}})
+    # (i) ONE CdnsBlockRead object used twice: it holds the first block of a valid file and k of its records have been taken; then the same
+    #     object read()s other bytes as a block - valid blocks of other files, their mutants, truncations - and everything it
+    #     then holds is taken out and rendered. Nothing of the first use may be touched (sanitizers), and after a read that succeeds the
+    #     object must hand out exactly what a fresh object does (which (b) compares with the model).
+    reuse = []
+    blocks = []
+    for f in files:
+        try: t = refcbor.parse_all(f)
+        except Exception: continue
+        blocks += [refcbor.encode(b) for b in t[1][2][1]]
+    with_blocks = [f for f in files if refcbor.parse_all(f)[1][2][1]]
+    for i in range((120 if tier == "quick" else 4000) if blocks else 0):
+        f = rng.choice(with_blocks); b = rng.choice(blocks); r = rng.random(); how = "read"
+        if r < 0.3: pass
+        elif r < 0.55:
+            try: b = refcbor.encode(refcbor.mutate_tree(refcbor.parse_all(b), rng, p=0.1))
+            except Exception: b = b[: len(b) // 2]
+        elif r < 0.75: b = b[:rng.randrange(len(b))]
+        else: b = rng.choice([b"\xa1\x00\x00", b"\xa0", b"\xbf\xff", b"", b"\x00", b"\xa1\x00\xa0", b"\xa1\x04\x81\x00", b"\xa1\x02\xa0"])
+        reuse.append({"id": "ru%d" % i, "script": ["F reuse %s %d %s %s" % (f.hex(), rng.choice([0, 1, 1, 2, 50]), how, b.hex() or "-")], "expect": ["reuse ok", None],
+                      "what": "a CdnsBlockRead object used a second time", "meta": {"kind": "reader/object-reused-" + how}})
     # (c) renderers on arbitrary strings (implementation only: no sanitizer report, no crash)
     rend = []
     names = [b"\x14" + b"a" * 19, b"\x01", b"\x03www", b"\x03www\x00", b"\xff", b"\x00", b"", b"\x01a\x3f" + b"b" * 10, b"\x05ab"]
@@ -153,7 +174,8 @@ def run(ctx):
     d2, f2 = common.run_expect(ctx, loose, batch=25, impl_env=env, canon=loosen)
     d3, f3 = common.run_expect(ctx, rend, batch=50, impl_env=env, impl_only=True)
     d4, f4 = common.run_expect(ctx, deep, batch=10, impl_env=env, impl_only=True)
-    diffs, fails = d1 + d2, f1 + f2 + f3 + f4
+    d5, f5 = common.run_expect(ctx, reuse, batch=10, impl_env=env, impl_only=True)
+    diffs, fails = d1 + d2, f1 + f2 + f3 + f4 + f5
     # (d) the five command-line tools on mutated files: normal exit, a diagnostic at most, no sanitizer report, bounded time
     tools = ["cdns_blocks", "cdns_items", "cdns_preamble", "cdns_itemcount", "cdns_merge"]
     root = tempfile.mkdtemp(prefix="c03.", dir=common.scratch_root())
@@ -178,7 +200,7 @@ def run(ctx):
             if rc != 0 or "Sanitizer" in err or "runtime error:" in err:
                 fails.append((c["id"], c, "%s on a malformed file: exit status %d %s" % (tool, rc, " ".join(err.split())[-300:]), []))
     shutil.rmtree(root, ignore_errors=True)
-    cases = exact + loose + rend + deep
+    cases = exact + loose + rend + deep + reuse
     common.summarize_cov(rep, cases,
         "(a) sequences of decoder operations on random bytes, truncated well-formed items and file mutants, and every decoder operation on every initial byte "
         "(256 x 11, exhaustive) (compared exactly with the model: "
@@ -191,5 +213,7 @@ def run(ctx):
         "(the block's item vectors and tables append, everything else: last occurrence) and structures with one member missing (exactly the mandatory "
         "members are insisted on), compared exactly with the model; (g) members with unknown keys "
         "whose value is nested 60000 deep (arrays, indefinite arrays, tags, maps) in the preamble map and the first block map; (h) each kind of stored "
-        "table index (27 kinds) set to exactly the length of the table it points into", diffs, fails)
+        "table index (27 kinds) set to exactly the length of the table it points into; (i) one CdnsBlockRead object used twice - a valid block read "
+        "and partly consumed, then read() of valid / mutated / truncated block bytes on the same object, then all accessors and renderers: "
+        "no access to what the first use left behind, and after a successful read exactly the records a fresh object hands out", diffs, fails)
     return {"diffs": diffs, "fails": fails, "to_script": lambda c: common.case_script(c)}
